@@ -130,6 +130,22 @@ class C04(PairCheck):
     devs = ('start_after_term', 'floor_beats_mru')
     term_p = 0.6
 
+    def models(self, tier):
+        from harness.checks import tcpcl_models
+        # (no transfer messages: before the session those are answered with MSG_REJECT, which C17 requires and
+        # which then precedes the endpoint's own SESS_INIT)
+        only = ('"CH"]', '"INIT"', 'Base("KA"')
+        return PairCheck.models(self, tier) + [
+            tcpcl_models.adversary_model('MC_adv_c04', 4 if tier != 'thorough' else 5, enforced='{"C04"}', only=only,
+                                         note='a peer that repeats its contact header / SESS_INIT or sends them late: '
+                                              'what the endpoint writes stays one contact header, one SESS_INIT, then '
+                                              'session messages'),
+            tcpcl_models.adversary_model('MC_adv_c04_dev', 4, dev='{"second_init_accepted"}', enforced='{"C04"}',
+                                         only=only, expect='violation',
+                                         note='negotiating again on a second SESS_INIT (second own SESS_INIT on the '
+                                              'wire) must be caught'),
+        ]
+
     def executions(self, tier, seed):
         traces, metas = PairCheck.executions(self, tier, seed)
         # "no segment exceeds the peer's announced segment MRU" must also hold while the sender adapts its
@@ -154,6 +170,18 @@ class C04(PairCheck):
         traces += ktr
         metas += kme
         self.extra_coverage['keepalive_mid_drain_runs'] = len(ktr)
+        # one real endpoint against a scripted peer that says things out of place (a second contact header or
+        # SESS_INIT among them): what the endpoint writes must stay a legal sequence whatever it hears
+        from harness.drivers import tcpcl_adv
+        atr, ame = tcpcl_adv.executions('quick', seed)
+        step = 5 if tier != 'thorough' else 1
+        # (only misbehaviour inside the session: before it, the answer C17 requires - MSG_REJECT, SESS_TERM -
+        # necessarily precedes the endpoint's own SESS_INIT)
+        keep = [i for i in range(len(atr)) if not ame[i]['pre_ch'] and not ame[i]['pre_init']
+                and (i % step == 0 or {'init_again', 'ch_again'} & set(ame[i]['sess']))]
+        traces += [atr[i] for i in keep]
+        metas += [dict(ame[i], source='scripted-peer') for i in keep]
+        self.extra_coverage['scripted_peer_traces'] = len(keep)
         return traces, metas
 
 
